@@ -311,25 +311,25 @@ func ruleProvExt(c *Ctx, r *Rep) {
 
 // wiring table: destination struct field -> the YAML-side field names it must come from.
 var contentWiring = map[string][]string{
-	"cert.NamingAuthority.Oid":               {"Oid"},
-	"cert.NamingAuthority.URL":               {"Url"},
-	"cert.NamingAuthority.Text":              {"Text"},
-	"cert.ProfessionInfo.NamingAuthority":    {"NamingAuthority"},
-	"cert.ProfessionInfo.ProfessionItems":    {"ProfessionItems"},
-	"cert.ProfessionInfo.ProfessionOids":     {"ProfessionOids"},
-	"cert.ProfessionInfo.RegistrationNumber": {"RegistrationNumber"},
-	"cert.ProfessionInfo.AddProfessionInfo":  {"AddProfessionInfo"},
-	"cert.Admissions.AdmissionAuthority":     {"AdmissionAuthority"},
-	"cert.Admissions.NamingAuthority":        {"NamingAuthority"},
-	"cert.Admissions.ProfessionInfos":        {"ProfessionInfos"},
-	"cert.Admission.AdmissionAuthority":      {"AdmissionAuthority"},
-	"cert.Admission.Contents":                {"Admissions"},
-	"cert.PolicyInfo.ObjectIdentifier":       {"Oid"},
-	"cert.PolicyQualifier.Cps":               {"Cps"},
-	"cert.UserNotice.ExplicitText":           {"Text"},
-	"cert.NoticeReference.Organization":      {"Organization"},
-	"cert.NoticeReference.NoticeNumbers":     {"Numbers"},
-	"cert.AccessDescription.AccessLocation":  {"Ocsp"},
+	"cert.NamingAuthority.Oid":                  {"Oid"},
+	"cert.NamingAuthority.URL":                  {"Url"},
+	"cert.NamingAuthority.Text":                 {"Text"},
+	"cert.ProfessionInfo.NamingAuthority":       {"NamingAuthority"},
+	"cert.ProfessionInfo.ProfessionItems":       {"ProfessionItems"},
+	"cert.ProfessionInfo.ProfessionOids":        {"ProfessionOids"},
+	"cert.ProfessionInfo.RegistrationNumber":    {"RegistrationNumber"},
+	"cert.ProfessionInfo.AddProfessionInfo":     {"AddProfessionInfo"},
+	"cert.Admissions.AdmissionAuthority":        {"AdmissionAuthority"},
+	"cert.Admissions.NamingAuthority":           {"NamingAuthority"},
+	"cert.Admissions.ProfessionInfos":           {"ProfessionInfos"},
+	"cert.Admission.AdmissionAuthority":         {"AdmissionAuthority"},
+	"cert.Admission.Contents":                   {"Admissions"},
+	"cert.PolicyInfo.ObjectIdentifier":          {"Oid"},
+	"cert.PolicyQualifier.Cps":                  {"Cps"},
+	"cert.UserNotice.ExplicitText":              {"Text"},
+	"cert.NoticeReference.Organization":         {"Organization"},
+	"cert.NoticeReference.NoticeNumbers":        {"Numbers"},
+	"cert.AccessDescription.AccessLocation":     {"Ocsp"},
 	"cert.AuthorityKeyIdentifier.KeyIdentifier": {"Id"},
 }
 
